@@ -184,7 +184,15 @@ class ScriptedSerial:
 
 
 class PortRig:
-    """Real PortTransport + real ReadProtocol built by the library's own factories."""
+    """Real PortTransport + real ReadProtocol built by the library's own factories.
+
+    `sending`: the transport is opened the way a sending gateway opens it - it writes its signature (a 7FFF puzzle frame) to the
+    port until the stick echoes it; the rig plays the stick (first echo) and keeps the signature frame (`self.signature`), so
+    that streams can carry further echoes of it (a slow stick echoes every copy it was sent)."""
+
+    def __init__(self, sending: bool = False) -> None:
+        self.sending = sending
+        self.signature: str | None = None
 
     async def start(self) -> None:
         from ramses_tx.protocol import protocol_factory
@@ -194,11 +202,34 @@ class PortRig:
         self.received: list = []
         self.loop_errors: list = []
         self.loop.set_exception_handler(lambda lp, ctx: self.loop_errors.append(ctx.get("exception") or ctx.get("message")))
-        self.protocol = protocol_factory(lambda msg: self.received.append(msg), disable_sending=True)
+        self.protocol = protocol_factory(lambda msg: self.received.append(msg), disable_sending=not self.sending)
         self.master, self.slave = os.openpty()
+        if self.sending:
+            os.set_blocking(self.master, False)
+            buf = b""
+
+            def stick() -> None:
+                nonlocal buf
+                try:
+                    buf += os.read(self.master, 4096)
+                except OSError:
+                    return
+                while b"\r\n" in buf:
+                    line, buf = buf.split(b"\r\n", 1)
+                    text = line.decode(errors="replace").rstrip()
+                    if text[:1] not in (" ", "R"):       # (the verb column is two wide: ' I', ' W')
+                        text = " " + text
+                    if " 7FFF " in text and self.signature is None:
+                        self.signature = text.replace("18:000730", "18:006402", 1)
+                        os.write(self.master, f"000 {self.signature}\r\n".encode())
+
+            self.loop.add_reader(self.master, stick)
         self.transport = await transport_factory(
-            self.protocol, port_name=os.ttyname(self.slave), port_config={}, disable_sending=True, loop=self.loop
+            self.protocol, port_name=os.ttyname(self.slave), port_config={}, disable_sending=not self.sending, loop=self.loop
         )
+        if self.sending:
+            await asyncio.sleep(0.12)      # (the signature task sees the echo at its next 50 ms poll)
+            self.loop.remove_reader(self.master)
         self.loop.remove_reader(self.transport.serial.fileno())
         self.real_serial = self.transport._serial
 
